@@ -532,3 +532,69 @@ func (fr *Frame) translateModset(ms *modset, fn *ssa.Function, args []Val) *mods
 	}
 	return out
 }
+
+// strconv / utf8: assumed contracts (documentation of the standard library).
+func init() {
+	// strconv.AppendFloat(dst, f, fmt, prec, bitSize): appends 1..32 bytes; for a
+	// finite f in format 'g' they are drawn from "0123456789+-.e", with at most
+	// one '.' which precedes the (at most one) 'e'.
+	intrinsics["strconv.AppendFloat"] = func(fr *Frame, x *ssa.Call, args []Val, st *State, rch Term) Val {
+		vc := fr.vc
+		dst := args[0]
+		n := vc.fresh("appendfloat.n", "Int")
+		vc.assume(and(sx("<=", "1", n), sx("<=", n, "32")))
+		newLen := vc.define("aplen", "Int", add(dst.C[1], n))
+		inPlace := vc.define("apinpl", "Bool", sx("<=", newLen, dst.C[2]))
+		newCap := vc.fresh("apcap", "Int")
+		vc.assume(and(sx("<=", newLen, newCap), sx("<=", newCap, maxLenT)))
+		a := vc.get(st, "$alloc")
+		fresh := vc.define("apnew", "Int", a)
+		vc.assume(sx("<", "0", fresh))
+		vc.set(st, "$alloc", ite(inPlace, a, sx("+", a, newCap, "1")))
+		arr := vc.define("aparr", "Int", ite(inPlace, dst.C[0], fresh))
+		cp := vc.define("apcp", "Int", ite(inPlace, dst.C[2], newCap))
+		fr.copyRegion(types.Typ[types.Uint8], fresh, dst.C[0], dst.C[1], st, not(inPlace), true)
+		// the appended bytes: unknown text with the syntactic shape of a float
+		vc.havocElems(types.Typ[types.Uint8], add(arr, dst.C[1]), n, st, fr)
+		h := vc.get(st, "E$uint8")
+		base := add(arr, dst.C[1])
+		bits := args[1].t()
+		finite := not(eq(sx("mod", sx("div", bits, pow2T(52)), "2048"), "2047"))
+		dot := vc.fresh("appendfloat.dot", "Int")
+		e := vc.fresh("appendfloat.e", "Int")
+		vc.assume(implies(finite, fmt.Sprintf("(forall ((k Int)) (! (=> (and (<= 0 k) (< k %s)) (let ((c (select %s (+ %s k)))) (and (or (and (<= 48 c) (<= c 57)) (= c 43) (= c 45) (= c 46) (= c 101)) (= (= c 46) (= k %s)) (= (= c 101) (= k %s))))) :pattern ((select %s (+ %s k)))))",
+			n, h, base, dot, e, h, base)))
+		// dot/e positions: -1 when absent; '.' precedes 'e'
+		vc.assume(and(sx("<=", "(- 1)", dot), sx("<", dot, n), sx("<=", "(- 1)", e), sx("<", e, n), implies(and(sx(">=", dot, "0"), sx(">=", e, "0")), sx("<", dot, e))))
+		return Val{T: x.Type(), C: []Term{arr, newLen, cp}}
+	}
+	m := newModset()
+	m.fams["E$uint8"] = "Int"
+	m.allocs = true
+	intrinsicMods["strconv.AppendFloat"] = m
+
+	// utf8.DecodeRuneInString(s): 1 <= size <= min(4, len(s)) for non-empty s;
+	// an ASCII byte decodes to itself with size 1; a multi-byte result consists
+	// of bytes >= 0x80; (RuneError, 1) signals an invalid sequence.
+	decode := func(fr *Frame, x *ssa.Call, args []Val, st *State, rch Term) Val {
+		vc := fr.vc
+		s := args[0]
+		vc.regFam("E$uint8", "Int")
+		h := vc.get(st, "E$uint8")
+		r := vc.fresh("decoderune.r", "Int")
+		size := vc.fresh("decoderune.size", "Int")
+		b0 := vc.sel(h, s.C[0])
+		ln := s.C[1]
+		vc.assume(and(
+			implies(eq(ln, "0"), and(eq(r, "65533"), eq(size, "0"))),
+			implies(sx(">", ln, "0"), and(sx("<=", "1", size), sx("<=", size, "4"), sx("<=", size, ln), sx("<=", "0", r), sx("<=", r, "1114111"))),
+			implies(and(sx(">", ln, "0"), sx("<", b0, "128")), and(eq(size, "1"), eq(r, b0))),
+			implies(and(sx(">", ln, "0"), sx(">=", b0, "128")), sx(">=", r, "128")),
+			implies(sx(">", size, "1"), and(sx(">=", vc.sel(h, add(s.C[0], "1")), "128"), implies(sx(">", size, "2"), sx(">=", vc.sel(h, add(s.C[0], "2")), "128")), implies(sx(">", size, "3"), sx(">=", vc.sel(h, add(s.C[0], "3")), "128")))),
+			// surrogate halves are never decoded
+			not(and(sx("<=", "55296", r), sx("<=", r, "57343")))))
+		return Val{T: x.Type(), C: []Term{r, size}}
+	}
+	intrinsics["unicode/utf8.DecodeRuneInString"] = decode
+	intrinsics["unicode/utf8.DecodeRune"] = decode
+}
